@@ -242,7 +242,7 @@ fn gen_hs(run: &mut Run, prop: &str, seed: u64, thorough: bool) {
                                     }
                                     v
                                 },
-                                "C12" => vec![Fault::MissingPsk],
+                                "C12" => vec![Fault::MissingPsk, Fault::OutOfTurn],  // an out-of-turn call must not cost the session its key material
                                 "C17" => vec![
                                     Fault::ReadTamper(Tamper::Flip { field: lay[k].len() - 1, at_end: true }),
                                     Fault::ReadCapShort(1),
